@@ -6,7 +6,7 @@ Require Import Bytes Utf8 AMap WireOut GoUpper Tags Event SendPath WireLines
   C03Utf8 C03Proofs C03Command C03Total C03Helpers.
 Require Import React ReactProofs.
 Require CapLib Names State ClientStep Ctcp Sasl Cap StsState Split PingNick.
-Require StateInv StateHandlers ClientStepProofs SplitProofs CtcpProofs CtcpSpec PingNickWire.
+Require StateInv StateHandlers ClientStepProofs SplitProofs SplitContent CtcpProofs CtcpSpec PingNickWire.
 From Coq Require Import Lia ZifyBool ZifyN ZifyNat.
 
 Local Open Scope N_scope.
@@ -127,22 +127,31 @@ Proof.
 Qed.
 
 (* the CTCP stage with the default repliers: source-less NOTICEs (C14_replies) *)
-Definition ctcp_out_ok (o : Ctcp.event) : Prop := Ctcp.ev_command o = Ctcp.NOTICE /\ Ctcp.ev_source o = None.
+Definition ctcp_out_ok (o : Ctcp.event) : Prop :=
+  Ctcp.ev_command o = Ctcp.NOTICE /\ Ctcp.ev_source o = None /\ Ctcp.ev_params o <> [].
 
 Lemma ctcp_stage_outs v e o : Ctcp.connected v = true ->
   Ctcp.ctcp_stage (Ctcp.default_table v) e = Ok o -> Forall ctcp_out_ok o.
 Proof.
   intros Hc H. destruct (CtcpProofs.stage_discipline v e o Hc H) as (_ & Hd).
   apply Forall_forall. intros x Hx. destruct (Hd x Hx) as (_ & c & name & _ & _ & _ & _ & Ha).
-  destruct Ha as (A & B & _). split; assumption.
+  destruct Ha as (A & B & cmd & text & _ & Ep & _). split; [exact A|split; [exact B|]]. rewrite Ep. discriminate.
 Qed.
 
 (* ---- everything the reaction hands to Send / write is a plain event --------------------------- *)
 
 Definition wout_event (o : wout) : wevent := match o with WSend e => e | WWrite e => e end.
 
+(* PRIVMSG / NOTICE never go through Client.write, and those handed to Client.Send have parameters *)
+Definition fit_ready (o : wout) : Prop :=
+  match o with
+  | WWrite e => Split.is_msg_cmd (we_cmd e) = false
+  | WSend e => Split.is_msg_cmd (we_cmd e) = true -> we_params e <> []
+  end.
+
 Definition plain_out (o : wout) : Prop :=
-  we_tags (wout_event o) = None /\ we_src (wout_event o) = None /\ In (we_cmd (wout_event o)) reaction_cmds.
+  we_tags (wout_event o) = None /\ we_src (wout_event o) = None /\ In (we_cmd (wout_event o)) reaction_cmds /\
+  fit_ready o.
 
 Ltac in_cmds := unfold reaction_cmds; cbn [In]; tauto.
 
@@ -150,7 +159,8 @@ Lemma out_of_state_plain o : state_out_ok o -> plain_out (out_of_state o).
 Proof.
   destruct o as [c ps]. cbn [state_out_ok out_of_state]. intros H.
   destruct (streqb c State.s_PONG); (split; [reflexivity|split; [reflexivity|]]);
-    cbn [wout_event plain_wevent we_cmd]; destruct H as [-> | [-> | ->]]; in_cmds.
+    cbn [wout_event plain_wevent we_cmd fit_ready]; destruct H as [-> | [-> | ->]];
+    (split; [in_cmds|try reflexivity; intros K; discriminate K]).
 Qed.
 
 Lemma outs_of_plain o :
@@ -164,13 +174,14 @@ Proof.
   destruct o as [x|x|x|x]; cbn [outs_of]; intros H.
   - constructor; [apply out_of_state_plain; exact H|constructor].
   - destruct x as [ev|t]; [|constructor]. constructor; [|constructor].
-    split; [reflexivity|split; [reflexivity|]]. cbn [wout_event plain_wevent we_cmd].
-    destruct H as [-> | ->]; in_cmds.
+    split; [reflexivity|split; [reflexivity|]]. cbn [wout_event plain_wevent we_cmd fit_ready].
+    destruct H as [-> | ->]; (split; [in_cmds|reflexivity]).
   - destruct x as [c ps|v|]; try constructor; [|constructor].
-    split; [reflexivity|split; [reflexivity|]]. cbn [wout_event plain_wevent we_cmd].
-    destruct H as [-> | ->]; in_cmds.
-  - destruct H as [Hc Hs]. constructor; [|constructor].
-    split; [reflexivity|]. cbn [wout_event we_src we_cmd]. rewrite Hs, Hc. split; [reflexivity|in_cmds].
+    split; [reflexivity|split; [reflexivity|]]. cbn [wout_event plain_wevent we_cmd fit_ready].
+    destruct H as [-> | ->]; (split; [in_cmds|reflexivity]).
+  - destruct H as (Hc & Hs & Hp). constructor; [|constructor].
+    split; [reflexivity|]. cbn [wout_event we_src we_cmd we_params fit_ready]. rewrite Hs, Hc.
+    split; [reflexivity|split; [in_cmds|intros _; exact Hp]].
 Qed.
 
 Lemma Forall_flat_map {A B} (P : B -> Prop) (f : A -> list B) l :
@@ -204,9 +215,10 @@ Proof.
   unfold collide_stage. destruct (PingNick.is_collision_cmd _); [|intros H; injection H as <-; constructor].
   unfold PingNick.nick_collision. destruct (PingNick.pc_collide _) as [f|].
   - destruct (f _) as [|a n]; intros H; injection H as <-; [constructor|].
-    constructor; [|constructor]. split; [reflexivity|split; [reflexivity|]]. cbn. in_cmds.
+    constructor; [|constructor]. split; [reflexivity|split; [reflexivity|]].
+    split; [cbn; in_cmds|intros K; discriminate K].
   - intros H; injection H as <-. constructor; [|constructor].
-    split; [reflexivity|split; [reflexivity|]]. cbn. in_cmds.
+    split; [reflexivity|split; [reflexivity|]]. split; [cbn; in_cmds|intros K; discriminate K].
 Qed.
 
 (* ---- inversion of one reaction ------------------------------------------------------------------ *)
@@ -283,7 +295,7 @@ Definition wellformed_line (l : str) : Prop :=
 
 Lemma line_of_wellformed mt o l : plain_out o -> line_of mt o l -> wellformed_line l.
 Proof.
-  intros (Tg & Sr & Hk) (e1 & -> & T1 & S1 & C1).
+  intros (Tg & Sr & Hk & _) (e1 & -> & T1 & S1 & C1).
   rewrite <- T1 in Tg. rewrite <- S1 in Sr. rewrite <- C1 in Hk.
   rewrite (wire_plain mt e1 Tg).
   destruct (event_bytes_no_crlf e1) as (A & B & C).
@@ -420,3 +432,245 @@ Example react_ping_example :
   exists w, parse_event (bs "PING :tok en" ++ crlf) = Ok (Some w) /\ we_cmd w = PingNick.s_PING /\
             PingNickWire.wire_valid (last (we_params w) []) = true /\ last (we_params w) [] = bs "tok en".
 Proof. eexists. split; [vm_compute; reflexivity|]. repeat split. Qed.
+
+(* ---- 5. the line limit ------------------------------------------------------------------------------------ *)
+
+(* Event.Bytes of the codec model and of the splitter's model agree on tag-less, source-less events *)
+Lemma params_bytes_agree : forall l, Event.params_bytes l = Split.params_bytes l.
+Proof.
+  induction l as [|p r IH]; [reflexivity|].
+  destruct r as [|q r']; [reflexivity|].
+  change (Event.params_bytes (p :: q :: r')) with (32 :: p ++ Event.params_bytes (q :: r')).
+  change (Split.params_bytes (p :: q :: r')) with ([32] ++ p ++ Split.params_bytes (q :: r')).
+  rewrite IH. reflexivity.
+Qed.
+
+Lemma piece_bytes_agree mt e p : we_tags e = None -> we_src e = None ->
+  Split.se_tagov p = 0%nat -> Split.se_source p = None ->
+  wire mt (of_piece e p) = Split.event_bytes p.
+Proof.
+  intros Tg Sr _ Ps. rewrite wire_plain by exact Tg.
+  unfold event_bytes, Split.event_bytes, event_raw_bytes, Split.event_raw, of_piece.
+  cbn [we_tags we_src we_cmd we_params]. rewrite Tg, Sr, Ps, params_bytes_agree. reflexivity.
+Qed.
+
+(* at most max bytes, or - only when fewer than 4 bytes remain for text - command and target
+   plus one character *)
+Definition fits_limit (max ctl : Z) (l : str) : Prop :=
+  (Z.of_nat (length l) <= max)%Z \/ ((max - ctl < 4)%Z /\ (Z.of_nat (length l) <= ctl + 4)%Z).
+
+Lemma to_sevent_plain e : we_tags e = None -> we_src e = None ->
+  Split.se_tagov (to_sevent e) = 0%nat /\ Split.se_source (to_sevent e) = None /\
+  Split.se_command (to_sevent e) = we_cmd e /\ Split.se_params (to_sevent e) = we_params e.
+Proof. intros Tg Sr. unfold to_sevent. rewrite Tg, Sr. repeat split. Qed.
+
+Lemma emit_fits mt st e ls : we_tags e = None -> we_src e = None -> we_params e <> [] ->
+  Split.is_msg_cmd (we_cmd e) = true ->
+  emit mt (Split.max_event_length st) (WSend e) = Ok ls ->
+  (SplitProofs.cmd_target_len (to_sevent e) <= Split.max_event_length st)%Z ->
+  Forall (fits_limit (Split.max_event_length st) (SplitProofs.cmd_target_len (to_sevent e))) ls.
+Proof.
+  intros Tg Sr Hne Hm H Hc. cbn [emit] in H.
+  destruct (Split.event_split (to_sevent e) (Split.max_event_length st)) as [ps|] eqn:Hs; [|discriminate].
+  cbn [rbind] in H. injection H as <-.
+  destruct (to_sevent_plain e Tg Sr) as (T0 & S0 & C0 & P0).
+  assert (Hf := SplitContent.send_fits_wire st (to_sevent e) ps T0 S0
+                  ltac:(rewrite P0; exact Hne) ltac:(rewrite C0; exact Hm) Hs Hc).
+  assert (Hframe : Forall (fun p => Split.se_tagov p = 0%nat /\ Split.se_source p = None) ps).
+  { destruct (SplitProofs.event_split_shape _ _ _ Hs) as [->|(_ & _ & text & wr & w & pcs & _ & _ & Hsf & _)].
+    - constructor; [split; assumption|constructor].
+    - eapply Forall_impl; [|exact Hsf]. intros p (_ & Hsrc & Htag & _). rewrite Hsrc, Htag. split; assumption. }
+  apply Forall_map_in. rewrite Forall_forall in *. intros p Hp.
+  destruct (Hframe p Hp) as [Pt Ps]. rewrite (piece_bytes_agree mt e p Tg Sr Pt Ps). exact (Hf p Hp).
+Qed.
+
+Lemma emit_all_forall_in (Q : wout -> Prop) (P : wout -> str -> Prop) mt max :
+  (forall o ls, Q o -> emit mt max o = Ok ls -> Forall (P o) ls) ->
+  forall l out, Forall Q l -> emit_all mt max l = Ok out -> Forall (fun x => exists o, In o l /\ P o x) out.
+Proof.
+  intros HP. induction l as [|o r IH]; cbn [emit_all]; intros out HQ H.
+  - injection H as <-. constructor.
+  - inversion HQ as [|? ? Qo Qr]; subst.
+    destruct (emit mt max o) as [a|] eqn:Ha; [|discriminate]. cbn [rbind] in H.
+    destruct (emit_all mt max r) as [b|] eqn:Hb; [|discriminate]. cbn [rbind] in H. injection H as <-.
+    apply Forall_app. split.
+    + eapply Forall_impl; [|exact (HP o a Qo Ha)]. intros x Hx. exists o. split; [left; reflexivity|exact Hx].
+    + eapply Forall_impl; [|exact (IH b Qr eq_refl)]. intros x (o' & Hin & Hx). exists o'. split; [right; exact Hin|exact Hx].
+Qed.
+
+(* every line of a reaction is the line of some event handed to Send / write (same command,
+   no tags, no source); if that event is a PRIVMSG / NOTICE - the CTCP replies - and its command
+   and target (with the CTCP frame) fit into MaxEventLength of the state after the step, the
+   line fits, up to the one-character boundary case of C11_fits *)
+Definition line_within_limit (mt : bool) (max : Z) (l : str) : Prop :=
+  exists o, plain_out o /\ line_of mt o l /\
+    (Split.is_msg_cmd (we_cmd (wout_event o)) = true ->
+     (SplitProofs.cmd_target_len (to_sevent (wout_event o)) <= max)%Z ->
+     fits_limit max (SplitProofs.cmd_target_len (to_sevent (wout_event o))) l).
+
+Theorem react_privmsg_fits cfg rs line rs' outs : conn_up cfg ->
+  react cfg rs line = RStep rs' outs ->
+  Forall (line_within_limit
+            (message_tags_on (Cap.st_enabled (ClientStep.cs_cap (rs_client rs'))))
+            (Split.max_event_length (ClientStep.cs_state (rs_client rs')))) outs.
+Proof.
+  intros Hc H. destruct (react_step_inv _ _ _ _ _ H) as [(_ & _ & ->)|(_ & w & cs' & couts & nouts & _ & H1 & H2 & H3 & ->)].
+  { constructor. }
+  cbn [rs_client].
+  assert (Hp : Forall plain_out (reaction_outs couts nouts)).
+  { unfold reaction_outs. apply Forall_app. split.
+    - exact (client_step_outs _ _ _ _ _ Hc H1).
+    - exact (collide_stage_outs _ _ _ _ H2). }
+  set (mt := message_tags_on _) in *. set (st := ClientStep.cs_state cs') in *.
+  set (P := fun (o : wout) (l : str) => plain_out o /\ line_of mt o l /\
+                   (Split.is_msg_cmd (we_cmd (wout_event o)) = true ->
+                    (SplitProofs.cmd_target_len (to_sevent (wout_event o)) <= Split.max_event_length st)%Z ->
+                    fits_limit (Split.max_event_length st) (SplitProofs.cmd_target_len (to_sevent (wout_event o))) l)).
+  assert (HP : forall o ls, plain_out o -> emit mt (Split.max_event_length st) o = Ok ls -> Forall (P o) ls).
+  { intros o ls Po He. pose proof (emit_line_of _ _ _ _ He) as Hl.
+    pose proof Po as (Tg & Sr & Hk & Fr).
+    destruct o as [e|e]; cbn [wout_event] in *.
+    - destruct (Split.is_msg_cmd (we_cmd e)) eqn:Em.
+      + pose proof (fun Hctl => emit_fits mt st e ls Tg Sr (Fr Em) Em He Hctl) as F.
+        rewrite Forall_forall in *. intros l Hin. split; [exact Po|].
+        split; [exact (Hl l Hin)|]. cbn [wout_event]. rewrite Em. intros _ Hctl.
+        exact (F Hctl l Hin).
+      + eapply Forall_impl; [|exact Hl]. intros l Hlo. split; [exact Po|].
+        split; [exact Hlo|]. cbn [wout_event]. rewrite Em. intros K. discriminate K.
+    - cbn [fit_ready] in Fr. eapply Forall_impl; [|exact Hl]. intros l Hlo.
+      split; [exact Po|]. split; [exact Hlo|]. cbn [wout_event]. rewrite Fr. intros K. discriminate K. }
+  pose proof (emit_all_forall_in plain_out P mt (Split.max_event_length st) HP _ _ Hp H3) as L.
+  eapply Forall_impl; [|exact L]. intros l (o & _ & Ho). exists o. exact Ho.
+Qed.
+
+(* non-vacuity: a CTCP PING with 720 bytes of text is answered by NOTICEs that Client.Send had
+   to split: two lines, each within MaxEventLength = 510 - 115 = 395 *)
+Definition ex_long_ping : str :=
+  bs ":alice!a@h.example PRIVMSG me :" ++ [1] ++ bs "PING " ++ concat (repeat (bs "lorem ipsum ") 60) ++ [1] ++ crlf.
+
+Example react_fits_example :
+  exists rs' outs, react ex_cfg (react_init StsState.sts_init) ex_long_ping = RStep rs' outs /\
+    Split.max_event_length (ClientStep.cs_state (rs_client rs')) = 395%Z /\
+    List.map (@length N) outs = [392; 368]%nat /\
+    Forall (fun l => prefixb (bs "NOTICE alice :" ++ [1] ++ bs "PING lorem") l = true) outs.
+Proof.
+  destruct (react_ok ex_cfg (react_init StsState.sts_init) ex_long_ping (react_init_inv _) eq_refl)
+    as [H|(rs' & outs & H & _)].
+  - vm_compute in H. discriminate H.
+  - exists rs', outs. split; [exact H|].
+    assert (E : react ex_cfg (react_init StsState.sts_init) ex_long_ping = RStep rs' outs) by exact H.
+    vm_compute in E. injection E as <- <-. split; [reflexivity|]. split; [vm_compute; reflexivity|].
+    repeat constructor.
+Qed.
+
+(* ---- one line, one source of output --------------------------------------------------------------------- *)
+(* The handlers of one event run concurrently (and the default CTCP repliers in goroutines of
+   their own), so an order between the outputs of DIFFERENT stages would not be fixed by the
+   code.  It never arises: for every event at most one stage writes anything. *)
+
+Inductive source_of (couts : list ClientStep.cout) (nouts : list PingNick.pn_out) : Prop :=
+| SrcState k : couts = List.map ClientStep.CSend k -> nouts = [] -> source_of couts nouts
+| SrcSasl k : couts = List.map ClientStep.CSasl k -> nouts = [] -> source_of couts nouts
+| SrcCap k : couts = List.map ClientStep.CCap k -> nouts = [] -> source_of couts nouts
+| SrcCtcp k : couts = List.map ClientStep.CCtcp k -> nouts = [] -> source_of couts nouts
+| SrcNick : couts = [] -> source_of couts nouts.
+
+Lemma handle_silent cfg s e s' o : State.handle cfg s e = Ok (s', o) ->
+  State.cmd_is e "PING" = false -> State.cmd_is e "JOIN" = false -> o = [].
+Proof.
+  intros H E1 E2. unfold State.handle in H. cbv zeta in H. rewrite E1, E2 in H.
+  repeat match type of H with
+         | (if ?b then _ else _) = _ => destruct b
+         end;
+    try (injection H as _ <-; reflexivity);
+    (match type of H with rbind ?r _ = _ => destruct r end; cbn [rbind] in H;
+     [injection H as _ <-; reflexivity|discriminate]).
+Qed.
+
+Lemma sasl_silent ccfg e o : ClientStep.sasl_stage ccfg e = Ok o ->
+  ClientStep.is_sasl_cmd e = false -> ClientStep.is_sasl_error_cmd e = false -> o = [].
+Proof. unfold ClientStep.sasl_stage. intros H A B. rewrite A, B in H. injection H as <-. reflexivity. Qed.
+
+Lemma cap_silent ccfg st e : State.cmd_is e "CAP" = false -> snd (ClientStep.cap_stage ccfg st e) = [].
+Proof. unfold ClientStep.cap_stage. intros ->. reflexivity. Qed.
+
+Lemma ctcp_silent t e o : Ctcp.ctcp_stage t (ClientStep.to_ctcp_event e) = Ok o ->
+  streqb (State.e_cmd e) Ctcp.PRIVMSG = false -> streqb (State.e_cmd e) Ctcp.NOTICE = false -> o = [].
+Proof.
+  intros H E1 E2. unfold Ctcp.ctcp_stage in H.
+  assert (D : Ctcp.decode_ctcp (ClientStep.to_ctcp_event e) = Ok None).
+  { apply CtcpProofs.not_ctcp_exact. apply CtcpSpec.nc_command.
+    unfold ClientStep.to_ctcp_event. cbn [Ctcp.ev_command].
+    intros [K|K]; rewrite K in *; discriminate. }
+  rewrite D in H. cbn [rbind] in H. injection H as <-. reflexivity.
+Qed.
+
+Lemma collide_silent cfg s e o : collide_stage cfg s e = Ok o ->
+  PingNick.is_collision_cmd (State.e_cmd e) = false -> o = [].
+Proof. unfold collide_stage. intros H E. rewrite E in H. injection H as <-. reflexivity. Qed.
+
+(* with the command known, every stage that does not handle it is silent *)
+Ltac known_cmd Hc :=
+  repeat match goal with
+         | |- _ /\ _ => split
+         end;
+  first [reflexivity | unfold ClientStep.is_sasl_cmd, ClientStep.is_sasl_error_cmd, State.cmd_is; rewrite Hc; reflexivity].
+
+Ltac lit H := unfold State.cmd_is in H; apply OrderLemmas.streqb_eq in H.
+
+Theorem react_single_source cfg cs e cs' couts nouts :
+  ClientStep.client_step (rc_client cfg) cs e = Ok (cs', couts) ->
+  collide_stage cfg (ClientStep.cs_state cs) e = Ok nouts -> source_of couts nouts.
+Proof.
+  intros H HN. unfold ClientStep.client_step in H.
+  destruct (State.handle _ _ e) as [[s' o1]|] eqn:H1; [|discriminate]. cbn [rbind] in H.
+  destruct (ClientStep.sasl_stage (rc_client cfg) e) as [o2|] eqn:H2; [|discriminate]. cbn [rbind] in H.
+  destruct (Ctcp.ctcp_stage _ _) as [o4|] eqn:H4; [|discriminate]. cbn [rbind] in H.
+  injection H as _ <-. cbn [snd].
+  set (o3 := snd (ClientStep.cap_stage (rc_client cfg) (ClientStep.cs_cap cs) e)).
+  (* the facts "all other stages are silent" for a known command *)
+  assert (St : forall c, State.e_cmd e = c ->
+            ClientStep.is_sasl_cmd e = false -> ClientStep.is_sasl_error_cmd e = false ->
+            State.cmd_is e "CAP" = false -> streqb c Ctcp.PRIVMSG = false -> streqb c Ctcp.NOTICE = false ->
+            PingNick.is_collision_cmd c = false ->
+            source_of (List.map ClientStep.CSend o1 ++ List.map ClientStep.CSasl o2 ++
+                       List.map ClientStep.CCap o3 ++ List.map ClientStep.CCtcp o4) nouts).
+  { intros c Hc A B C D1 D2 F. rewrite <- Hc in D1, D2, F.
+    rewrite (sasl_silent _ _ _ H2 A B), (ctcp_silent _ _ _ H4 D1 D2), (collide_silent _ _ _ _ HN F).
+    unfold o3. rewrite (cap_silent _ _ _ C). cbn [List.map]. rewrite !app_nil_r.
+    apply (SrcState _ _ o1); reflexivity. }
+  destruct (State.cmd_is e "PING") eqn:E1. { lit E1. apply (St _ E1); known_cmd E1. }
+  destruct (State.cmd_is e "JOIN") eqn:E2. { lit E2. apply (St _ E2); known_cmd E2. }
+  rewrite (handle_silent _ _ _ _ _ H1 E1 E2). cbn [List.map app]. clear St.
+  assert (Sa : forall c, State.e_cmd e = c ->
+            State.cmd_is e "CAP" = false -> streqb c Ctcp.PRIVMSG = false -> streqb c Ctcp.NOTICE = false ->
+            PingNick.is_collision_cmd c = false ->
+            source_of (List.map ClientStep.CSasl o2 ++ List.map ClientStep.CCap o3 ++ List.map ClientStep.CCtcp o4) nouts).
+  { intros c Hc C D1 D2 F. rewrite <- Hc in D1, D2, F.
+    rewrite (ctcp_silent _ _ _ H4 D1 D2), (collide_silent _ _ _ _ HN F).
+    unfold o3. rewrite (cap_silent _ _ _ C). cbn [List.map]. rewrite !app_nil_r.
+    apply (SrcSasl _ _ o2); reflexivity. }
+  destruct (ClientStep.is_sasl_cmd e) eqn:E3.
+  { unfold ClientStep.is_sasl_cmd in E3. apply orb_prop in E3. destruct E3 as [E|E]; lit E; apply (Sa _ E); known_cmd E. }
+  destruct (ClientStep.is_sasl_error_cmd e) eqn:E4.
+  { unfold ClientStep.is_sasl_error_cmd in E4.
+    repeat (apply orb_prop in E4; destruct E4 as [E4|E]; [|lit E; apply (Sa _ E); known_cmd E]).
+    lit E4. apply (Sa _ E4); known_cmd E4. }
+  rewrite (sasl_silent _ _ _ H2 E3 E4). cbn [List.map app]. clear Sa.
+  destruct (State.cmd_is e "CAP") eqn:E5.
+  { lit E5. assert (D1 : streqb (State.e_cmd e) Ctcp.PRIVMSG = false) by (rewrite E5; reflexivity).
+    assert (D2 : streqb (State.e_cmd e) Ctcp.NOTICE = false) by (rewrite E5; reflexivity).
+    assert (F : PingNick.is_collision_cmd (State.e_cmd e) = false) by (rewrite E5; reflexivity).
+    rewrite (ctcp_silent _ _ _ H4 D1 D2), (collide_silent _ _ _ _ HN F). cbn [List.map]. rewrite app_nil_r.
+    apply (SrcCap _ _ o3); reflexivity. }
+  unfold o3. rewrite (cap_silent _ _ _ E5). cbn [List.map app].
+  destruct (streqb (State.e_cmd e) Ctcp.PRIVMSG) eqn:E6.
+  { apply OrderLemmas.streqb_eq in E6.
+    assert (F : PingNick.is_collision_cmd (State.e_cmd e) = false) by (rewrite E6; reflexivity).
+    rewrite (collide_silent _ _ _ _ HN F). apply (SrcCtcp _ _ o4); reflexivity. }
+  destruct (streqb (State.e_cmd e) Ctcp.NOTICE) eqn:E7.
+  { apply OrderLemmas.streqb_eq in E7.
+    assert (F : PingNick.is_collision_cmd (State.e_cmd e) = false) by (rewrite E7; reflexivity).
+    rewrite (collide_silent _ _ _ _ HN F). apply (SrcCtcp _ _ o4); reflexivity. }
+  rewrite (ctcp_silent _ _ _ H4 E6 E7). apply SrcNick. reflexivity.
+Qed.
